@@ -67,7 +67,7 @@ _CMP = {
 _SAFE_METHODS = {
     "list": ("append", "insert", "extend", "index", "count", "copy", "pop", "sort", "reverse"),
     "dict": ("items", "keys", "values", "get", "copy"),
-    "str": ("encode", "split", "rsplit", "startswith", "endswith", "strip", "join", "format", "lower", "upper", "replace", "count"),
+    "str": ("encode", "split", "rsplit", "startswith", "endswith", "strip", "join", "format", "lower", "upper", "replace", "count", "isascii", "isdigit", "isalpha", "isidentifier", "isprintable", "lstrip", "rstrip", "find", "rfind", "partition", "rpartition", "splitlines", "zfill"),
     "bytes": ("decode", "startswith", "endswith"),
     "tuple": ("index", "count"),
 }
@@ -116,6 +116,21 @@ class Evaluator:
         if isinstance(e, (ast.Tuple, ast.List)):
             vals = [self.ev(x) for x in e.elts]
             return tuple(vals) if isinstance(e, ast.Tuple) else vals
+        if isinstance(e, ast.Dict):
+            out = {}
+            for k, v in zip(e.keys, e.values):
+                if k is None:
+                    sub = self.ev(v)
+                    if not isinstance(sub, dict):
+                        raise Unsupported("** of a non-dict")
+                    out.update(sub)
+                else:
+                    kk = self.ev(k)
+                    try:
+                        out[kk] = self.ev(v)
+                    except TypeError:
+                        raise PyRaise("TypeError")
+            return out
         if isinstance(e, ast.Attribute):
             v = self.ev(e.value)
             if isinstance(v, Record):
@@ -124,6 +139,8 @@ class Evaluator:
                 raise Unsupported(f"attribute .{e.attr} of {v!r}")
             if isinstance(v, dict) and v.get("__namespace__") and e.attr in v:
                 return v[e.attr]
+            if hasattr(v, "sa_attr"):
+                return v.sa_attr(e.attr)
             raise Unsupported(f"attribute .{e.attr} of a {type(v).__name__}")
         if isinstance(e, ast.Subscript):
             v = self.ev(e.value)
@@ -197,6 +214,19 @@ class Evaluator:
                         x = self.ev(v.value)
                     except Unsupported:
                         x = "<?>"
+                    if not isinstance(x, Record) and x != "<?>" and (v.format_spec is not None or v.conversion != -1):
+                        if v.conversion == ord("r"):
+                            x = repr(x)
+                        elif v.conversion == ord("s"):
+                            x = str(x)
+                        elif v.conversion == ord("a"):
+                            x = ascii(x)
+                        spec = self.ev(v.format_spec) if v.format_spec is not None else ""
+                        try:
+                            parts.append(format(x, spec))
+                        except (ValueError, TypeError) as ex:
+                            raise PyRaise(type(ex).__name__)
+                        continue
                     parts.append(x.fields.get("__str__", repr(x)) if isinstance(x, Record) else str(x))
             return "".join(parts)
         if isinstance(e, (ast.GeneratorExp, ast.ListComp)) and len(e.generators) == 1 and isinstance(e.generators[0].target, ast.Name):
@@ -224,6 +254,35 @@ class Evaluator:
                 if isinstance(vals, (list, tuple)) and all(isinstance(v, (int, bool)) for v in vals):
                     return sum(int(v) for v in vals)
                 raise Unsupported("sum over non-integers")
+            if isinstance(fn, ast.Name) and fn.id in ("any", "all") and fn.id not in self.env and len(e.args) == 1 and isinstance(e.args[0], ast.GeneratorExp) and len(e.args[0].generators) == 1 and isinstance(e.args[0].generators[0].target, ast.Name):
+                # lazy, like Python: stop at the first deciding element (later elements need not be evaluable)
+                ge = e.args[0]
+                g = ge.generators[0]
+                seq = self.ev(g.iter)
+                if isinstance(seq, Record) and callable(seq.fields.get("__iter__")):
+                    seq = seq.fields["__iter__"]()
+                if not isinstance(seq, (list, tuple)):
+                    raise Unsupported("comprehension over a non-sequence")
+                saved = self.env.get(g.target.id, _MISSING)
+                result = fn.id == "all"
+                try:
+                    for item in list(seq):
+                        self.env[g.target.id] = item
+                        if not all(self.truth(self.ev(c)) for c in g.ifs):
+                            continue
+                        t = self.truth(self.ev(ge.elt))
+                        if fn.id == "all" and not t:
+                            result = False
+                            break
+                        if fn.id == "any" and t:
+                            result = True
+                            break
+                finally:
+                    if saved is _MISSING:
+                        self.env.pop(g.target.id, None)
+                    else:
+                        self.env[g.target.id] = saved
+                return result
             if isinstance(fn, ast.Name) and fn.id in ("max", "min", "any", "all", "sorted", "list", "tuple", "enumerate") and fn.id not in self.env:
                 args = [self.ev(a) for a in e.args]
                 kw = {k.arg: self.ev(k.value) for k in e.keywords}
@@ -268,6 +327,14 @@ class Evaluator:
                     return f"<type {type(args[0]).__name__}>"
                 if fn.id == "int" and len(args) == 1 and isinstance(args[0], (bool, int)):
                     return int(args[0])
+                if fn.id == "ord" and len(args) == 1 and fn.id not in self.env:
+                    if isinstance(args[0], (str, bytes)) and len(args[0]) == 1:
+                        return ord(args[0])
+                    raise PyRaise("TypeError")
+                if fn.id == "chr" and len(args) == 1 and fn.id not in self.env:
+                    if isinstance(args[0], int) and not isinstance(args[0], bool) and 0 <= args[0] <= 0x10FFFF:
+                        return chr(args[0])
+                    raise PyRaise("TypeError" if not isinstance(args[0], int) else "ValueError")
                 if fn.id == "bool" and len(args) == 1:
                     return self.truth(args[0])
                 if fn.id == "len" and len(args) == 1 and isinstance(args[0], (tuple, list, str, dict, bytes)):
@@ -308,6 +375,14 @@ class Evaluator:
                     return r
             raise Unsupported(f"call {ast.unparse(e)[:40]}")
         raise Unsupported(f"expression {type(e).__name__}")
+
+    def _index(self, sl: ast.AST):
+        if isinstance(sl, ast.Slice):
+            lo = self.ev(sl.lower) if sl.lower is not None else None
+            hi = self.ev(sl.upper) if sl.upper is not None else None
+            stp = self.ev(sl.step) if sl.step is not None else None
+            return slice(lo, hi, stp)
+        return self.ev(sl)
 
     def truth(self, v: Any) -> bool:
         if isinstance(v, Record):
@@ -387,6 +462,8 @@ class Evaluator:
                 seq = self.ev(st.iter)
                 if isinstance(seq, Record) and callable(seq.fields.get("__iter__")):
                     seq = seq.fields["__iter__"]()
+                if isinstance(seq, (str, bytes)):
+                    seq = list(seq)
                 if not isinstance(seq, (list, tuple)):
                     raise Unsupported("for over a non-sequence")
                 broke = False
@@ -442,6 +519,36 @@ class Evaluator:
                     if not isinstance(t, ast.Name):
                         raise Unsupported("tuple assignment target")
                     self.env[t.id] = x
+            elif isinstance(st, ast.Assign) and len(st.targets) == 1 and isinstance(st.targets[0], ast.Subscript):
+                t = st.targets[0]
+                cont = self.ev(t.value)
+                v = self.ev(st.value)
+                if isinstance(cont, Record) and "__setitem__" in cont.fields:
+                    idx = self._index(t.slice)
+                    cont.fields["__setitem__"](idx, v)
+                elif isinstance(cont, (list, dict)):
+                    idx = self._index(t.slice)
+                    try:
+                        if isinstance(idx, slice) and isinstance(v, Record) and callable(v.fields.get("__iter__")):
+                            v = v.fields["__iter__"]()
+                        cont[idx] = v
+                    except (IndexError, KeyError, TypeError, ValueError) as ex:
+                        raise PyRaise(type(ex).__name__)
+                else:
+                    raise Unsupported("subscript assignment into a non-container")
+            elif isinstance(st, ast.Delete) and all(isinstance(t, ast.Subscript) for t in st.targets):
+                for t in st.targets:
+                    cont = self.ev(t.value)
+                    idx = self._index(t.slice)
+                    if isinstance(cont, Record) and "__delitem__" in cont.fields:
+                        cont.fields["__delitem__"](idx)
+                    elif isinstance(cont, (list, dict)):
+                        try:
+                            del cont[idx]
+                        except (IndexError, KeyError, TypeError) as ex:
+                            raise PyRaise(type(ex).__name__)
+                    else:
+                        raise Unsupported("del of a non-container item")
             elif isinstance(st, ast.Try):
                 try:
                     self._block(st.body)
